@@ -124,6 +124,7 @@ var interpretable = map[string]bool{
 }
 
 var interpretFuncs = map[string]bool{
+	"(encoding/asn1.BitString).At": true,
 	"crypto/elliptic.Marshal": true, "crypto/elliptic.Unmarshal": true, "crypto/elliptic.panicIfNotOnCurve": true,
 	"(*fmt.wrapError).Unwrap": true, "(*fmt.wrapError).Error": true, "(*fmt.wrapErrors).Unwrap": true, "(*fmt.wrapErrors).Error": true,
 }
